@@ -180,6 +180,8 @@ class Run(object):
         self.delivered_typed = 0
 
     def mk(self, tname, kind, key, ser):
+        if not hasattr(self, "stored"):
+            self.stored = {}
         fn = SER[ser]
         p = self.cfg["p_ser_raise"]
 
@@ -191,7 +193,13 @@ class Run(object):
             if p and self.fault.chance(p, "ser_raise"):
                 self.failed.append((tname, kind, key))
                 self.rc.count_fault("ser_raise")
-                raise SER_EXC[self.fault.choose(len(SER_EXC), "ser-exc-class")]("serializer %s.%s failed" % (tname, key))
+                ex_ = SER_EXC[self.fault.choose(len(SER_EXC), "ser-exc-class")]("serializer %s.%s failed" % (tname, key))
+                if self.fault.choose(3, "stored-exception") == 2:
+                    # a serializer that re-raises the very exception object it raised before (the stored error
+                    # of a failed future, a cached lookup failure): every failure gets its own report all the same
+                    ex_ = self.stored.setdefault((tname, kind, key), ex_)
+                    self.rc.probe("serializer_reraised_a_stored_exception_object")
+                raise ex_
             try:
                 return fn(v)
             except Exception:
